@@ -14,7 +14,8 @@ pub use web_time::Instant;
 pub fn deadline_exceeded(deadline: Option<Instant>) -> bool {
     #[cfg(similar_verif)]
     {
-        if deadline.is_some() {
+        if let Some(deadline) = deadline {
+            crate::verif::note_deadline(deadline);
             if let Some(rv) = crate::verif::clock_probe() {
                 return rv;
             }
